@@ -55,7 +55,7 @@ def _observe(job):
     ncol, relations, cfg, seed = job
     from copulas.multivariate import GaussianMultivariate
     rs = np.random.RandomState(seed)
-    df = table(ncol, relations, rs, n=80)
+    df = table(ncol, relations, rs, n=1234 if seed % 11 == 5 else 80, labels='int' if seed % 5 == 2 else 'str')
     cols = list(df.columns)
     rec = {'kind': 'density', 'err': '', 'S': S, 'rep': [], 'ref': [], 'logp': [], 'logref': [], 'chains': [], 'crep': [], 'cref': [],
            'ctol': 20000 if ncol >= 3 else 200, 'desc': '%d|%s|%s' % (ncol, ','.join(relations[1:]), cfg)}
@@ -88,6 +88,7 @@ def _observe(job):
         reps.append(np.asarray(m.probability_density(rows.to_numpy().copy()), dtype=float))
         reps.append(np.array([float(np.ravel(m.probability_density(rows.iloc[i]))[0]) for i in range(nrow)]))       # Series, one row at a time
         reps.append(np.array([float(np.ravel(m.probability_density(rows.to_numpy()[i].copy()))[0]) for i in range(nrow)]))   # 1-D arrays
+        reps.append(np.array([float(np.ravel(m.probability_density(rows.iloc[i][cols[::-1]]))[0]) for i in range(nrow)]))    # Series whose index is not in training order
         reps.append(np.asarray(m.probability_density(rows.iloc[::-1].copy()), dtype=float)[::-1])                  # reversed batch
         far = pd.DataFrame({c: [1e9, -1e9] for c in cols})
         reps.append(np.asarray(m.probability_density(pd.concat([far, rows], ignore_index=True)), dtype=float)[2:])   # with far-out rows
@@ -112,7 +113,8 @@ def _observe(job):
         c0 = np.asarray(m.cumulative_distribution(rows.copy()), dtype=float)
         creps = [c0, np.asarray(m.cumulative_distribution(rows[cols[::-1]].copy()), dtype=float),
                  np.asarray(m.cumulative_distribution(rows.to_numpy().copy()), dtype=float),
-                 np.array([float(np.ravel(m.cumulative_distribution(rows.iloc[i]))[0]) for i in range(nrow)])]
+                 np.array([float(np.ravel(m.cumulative_distribution(rows.iloc[i]))[0]) for i in range(nrow)]),
+                 np.array([float(np.ravel(m.cumulative_distribution(rows.iloc[i][cols[::-1]]))[0]) for i in range(nrow)])]
         rec['crep'] = [O.fx(c).tolist() for c in creps]
         if ncol == 2 and np.linalg.cond(R) < 1e4:
             rho = R[0, 1] / math.sqrt(R[0, 0] * R[1, 1])
@@ -130,14 +132,14 @@ def run(ctx):
     quick = ctx.tier == 'quick'
     ctx.rule = ('models fitted on the C02 table layouts (2..%d columns; independent / dependent / monotone / negative / constant columns; Gaussian, dict, '
                 'KDE and default marginals): for 10 query rows (training rows and rows up to 9 standard deviations outside) the log density is '
-                'obtained from a DataFrame in training order, 4 column permutations, a 2-D array, one Series / 1-D array per row, the reversed batch '
+                'obtained from a DataFrame in training order, 4 column permutations, a 2-D array, one Series (index in training order and reversed) / 1-D array per row, the reversed batch '
                 'and a batch with far-out rows; TLC (GaussLaws) requires all representations to agree, to equal the harness\'s zero-mean MVN log '
                 'density at the normal scores, log_pdf = log(pdf), the CDF to lie in [0,1], be non-decreasing along each coordinate, independent of '
                 'the representation and (2 columns) equal to an independent bivariate-normal quadrature.  non-trivial = every model; distinct by '
                 '(layout, configuration)') % (3 if quick else 4)
     ctx.assumptions = ['CDF tolerance 2e-4 for >= 3 columns (SciPy integrates the MVN CDF with a randomised quadrature), 2e-6 for 2 columns',
                        'the reference density / CDF formulas are applied to well-conditioned fitted correlations (cond < 1e4) only: SciPy treats near-singular matrices with a pseudo-inverse and its bivariate CDF is only good to ~2e-5 at |rho| ~ 1']
-    RELS = ('independent', 'dependent', 'negative', 'monotone', 'constant')
+    RELS = ('independent', 'dependent', 'negative', 'monotone', 'constant', 'weak')
     CFGS = ('gaussian-class', 'dict', 'kde') if quick else ('gaussian-class', 'gaussian-name', 'instance', 'dict', 'kde', 'default')
     jobs = []
     for ncol in range(2, (3 if quick else 4) + 1):
